@@ -28,7 +28,7 @@ macro "crew_tie" o:term : tactic =>
   `(tactic| (by_cases hw : ($o).weather = true <;> by_cases he : ($o).env_workable = true
              <;> by_cases hs : ($o).deployment_type = Deploy.stationary
              <;> by_cases hp : ($o).rep_survey_in_progress = true
-             <;> simp [absRep, stepOf, surveyStep, applyStep, effS, effT, hw, he, hs, hp]
+             <;> simp [absRep, stepOf, surveyStep, applyStep, effS, effT, hw, he, hs, hp, *]
              <;> (try (repeat' split)) <;> (try simp_all) <;> (try omega) <;> (try grind)))
 
 /-- report after the call = `applyStep` of the model's step -/
@@ -71,7 +71,16 @@ theorem owners_as_modelled : CrewSrc.surveySiteOwner =
     [("Method", "Method"), ("SiteLevelMethod", "Method"), ("EquipmentGroupLevelMethod", "Method"),
      ("ComponentLevelMethod", "ComponentLevelMethod")] := by decide
 
-/-- the only effect skipped by the translation is the sensor call -/
-theorem ignored_as_documented : CrewSrc.ignored = ["self._sensor.detect_emissions"] := by decide
+/-- nothing is skipped by the translation -/
+theorem ignored_as_documented : CrewSrc.ignored = [] := by decide
+
+/-- **the sensor is consulted exactly once, and only by the step that completes the survey** (with the
+site, the method's own name and this survey's report): no reading is taken on a day the survey is left
+in progress, on a day without time, or on a day the weather forbids -/
+theorem survey_site_sensor (o : Obj) (d : Int) (h : o.effects = []) :
+    (Method.survey_site o d).1.effects
+      = (if (stepOf o).branch = .complete
+         then ["sensor(site=site_to_survey, meth_name=self._name, survey_report=survey_report)"] else []) := by
+  crew_tie o
 
 end LdarModel.CrewTie
